@@ -203,6 +203,28 @@ ROUND4 = {
            "connection still in use.",
 }
 
+_SHARED = "Per-instance containers of the classes these lemmas are about are per instance: no mutable attrs default, no class-level container mutated through self, no chained assignment of one container to two attributes (R0)."
+ROUND5 = {
+    "C01": _SHARED + " Messages held until the key exists are all judged once it does (C01.R6 drained); the no-key guard of derive_key and the values ever stored in _key are consistent (C01.R4).",
+    "C02": _SHARED + " The position a message is delivered at is its authenticated phase (C02.R8); the dedup key is the phase, alone or with the side label.",
+    "C03": _SHARED + " Observers hand every callback to the eventual queue; a fast path in W_received is accepted only together with the Mailbox's de-duplication.",
+    "C04": "The sender's directory walk keeps empty directories and adds every path once under its relative name (C04.R7); no __exit__ in the package can swallow an exception raised inside a timed block (C04.R8).",
+    "C05": "No __exit__ in the package can swallow an exception raised inside a `with` block (C05.R6: a refused overwrite stays refused).",
+    "C06": _SHARED + " No truthiness test on a record value between decryption / the inbound queue and the application (C06.R7: the empty record is a record).",
+    "C07": _SHARED + " The deadline around the race evaluates to between one and ten per-connection timeouts; no __exit__ swallows exceptions (C07.R7).",
+    "C08": _SHARED + " In the product, `add` and a `close` without mailbox id are only sent on a connection that opened the mailbox (tx-protocol).",
+    "C09": _SHARED + " In the product, `add` and a `close` without mailbox id are only sent on a connection that opened the mailbox (C09.R4 tx-protocol).",
+    "C10": _SHARED + " Subchannel ids of the two sides never collide (C10.R10); in the two-party product every connection handed to Inbound / Outbound has been taken away again before the next one arrives (C10.R11).",
+    "C12": _SHARED,
+    "C13": _SHARED + " A row that reports the subchannel closed to the manager enters the closed state (C13.R1).",
+    "C14": _SHARED + " The product tracks the kind of containers of unknown content: a set operator applied to a list is a reachable TypeError.",
+    "C15": _SHARED + " stop_using_connection unregisters from the old transport before it forgets the connection (C15.R2).",
+    "C16": "The product runs the Manager's real on_pong callback; where that callback weighs the round-trip time against the interval, handle_pong must hand over the plain elapsed time (C16.R4 rtt-unit).",
+    "C17": _SHARED + " Environment with an old peer (no can-dilate entry): once the versions are known and dilate() was called the Manager has left its initial state (C17.R7 versions-not-forwarded).",
+    "C18": _SHARED + " Observers never fire synchronously (C18.R6); every numbered phase reaches the application at most once (C18.R7).",
+    "C20": _SHARED + " Every Manager state in which a hints message can arrive declares rx_HINTS (C20.R5, also decided in the two-party product); what this side advertises reads no attribute that peer input writes (C20.R6); per-key constant correlation across calls in the JSON engine.",
+}
+
 ROUND3 = {
     "C01": "Order inside the key row: the output that stores the key precedes those that re-submit held messages (C01.R5).",
     "C03": "SequenceObserver hands results to observers atomically (taken synchronously, only in fire / when_next_event) and EventualQueue._turn isolates each call in its own try (C03.R3).",
